@@ -64,10 +64,15 @@ Resolve(s) ==
 \* relative one always stays inside.
 \* With Prefix::Digest the file name is "<hex digest>." followed by the resolved name, which is
 \* never absolute: an absolute resolved name then lands in a directory called "<hex digest>.".
+\* a resolved name that begins with two separators (the URL parser takes a backslash for a slash) is a
+\* network-path reference: joined to the base URL it names another authority, or no valid URL at all.  The
+\* fetch may then fail (JoinUrl); if it succeeds, what is saved is digest-checked and lands inside.
+Authority(r) == Len(r) >= 2 /\ r[1] \in {"/", "\\"} /\ r[2] \in {"/", "\\"}
 SaveVerdict(s, digestPrefix) ==
   LET rv == Resolve(s) IN
   IF ~rv.ok THEN "invalid-name"
   ELSE IF Absolute(rv.r) /\ ~digestPrefix THEN "unsafe-path"
+  ELSE IF Authority(rv.r) THEN "inside-or-no-url"
   ELSE "inside"
 
 \* C08: whatever the name, nothing is written outside the output directory
